@@ -53,10 +53,12 @@ def instantiations(tier, seed):
                 nd["id"] = None
         c2["id"] = None if rng.random() < 0.5 else c2["id"]
         out.append({"part": "plog", "model": c2, "kind_": "cfg", "warm": k % 2 == 1})
-    mats = [a for a in mat.CURATED_A if sum(len(r) for r in a) <= (6 if tier == "quick" else 8)]
+    mats = [a for a in mat.CURATED_A if sum(len(r) for r in a) <= (6 if tier == "quick" else 8) and len(a[0]) >= 2]
     n_rand = 4 if tier == "quick" else 60
     for _ in range(n_rand):
-        mats.append(mat.random_A(rng, max_rows=2 if tier == "quick" else 3, max_cols=3))
+        A_ = mat.random_A(rng, max_rows=2 if tier == "quick" else 3, max_cols=3)
+        if len(A_[0]) >= 2:       # a polyhedron needs the constant column and at least one variable column
+            mats.append(A_)
     for k, A in enumerate(mats):
         out.append({"part": "poly", "shape": [len(A), len(A[0])], "prio": ["sym", "omitted", "zeros"][k % 3], "vars": ["given", "generated"][k % 2],
                     "index": ["given", "generated", "ints"][(k // 2) % 3], "select": k % 3 != 0, "warm": k % 4 == 1})
@@ -273,6 +275,9 @@ def _poly(ns, spec, run):
                 return {"entries": [[S.model_int(m, e) for e in row] for row in d["ent"]], "boxes": [[S.model_int(m, a), S.model_int(m, b)] for a, b in d["bx"]],
                         "prio": None if d["dp"] is None else [S.model_int(m, x) for x in d["dp"]]}
             if d["err"] is not None:
+                if " in construct: " in d["err"]:
+                    run.notes.append({"note": "constructor rejects the instantiation (not the round trip): " + d["err"]})
+                    return
                 run.obligation(ctx, "raises", True, conc, extra=d["err"])
                 return
             P, P2 = d["P"], d["P2"]
